@@ -356,3 +356,40 @@ def r_full_range(cx):
               "a conversion loop of normalize_gravsoft_grid_values does not cover all grid values: %s" % why,
               cx.where(f.term(lp.header)["span"]))
     cx.count("R-FULL-RANGE", "conversion_loops", n)
+
+
+# ---------------------------------------------------------------------------------------------------------------------
+# R-NULL-LAST (C08): the null grid is the last resort
+
+@rule("R-NULL-LAST", ["C08"])
+def r_null_last(cx):
+    """In grids_at the null grid answers (zero correction) only after both passes over the real grids (strict, then
+    with the half-cell margin) have failed: the block that returns the origin for `use_null_grid` lies outside the
+    search loops - so a point in the margin of a real grid gets that grid's continued value, not zero."""
+    f = cx.f.fn("grid::grids_at")
+    sites = []
+    for bb, t in f.calls():
+        if (f.callee(t) or "").endswith("Coor4D::origin"):
+            sites.append(bb)
+    loops = f.loops()
+    n = 0
+    for bb in sites:
+        n += 1
+        # the answer may be reached only through the "iterator exhausted" exit of the outermost search loop
+        outer = [lp for lp in loops if lp.parent is None]
+        done_targets = set()
+        for lp in outer:
+            hs = {lp.header} | {x for x in f.succ[lp.header] if x in lp.body}
+            for (a, b) in lp.exits:
+                if a in hs and f.term(b)["k"] not in ("unreachable", "resume"):
+                    done_targets.add(b)
+        ok = bool(outer) and bool(done_targets) and bb not in f.reach_from([0], avoid=tuple(done_targets)) \
+            and not any(bb in lp.body for lp in loops)
+        cx.ob("R-NULL-LAST", "grids_at/null%d" % (n - 1), ok,
+              "the null grid is consulted only after the strict and the margin pass over all grids" if ok else
+              "grids_at answers with the null grid from inside the search loops: points within the half-cell margin of "
+              "a grid get a zero correction instead of the grid's linearly continued one", cx.where(f.term(bb)["span"]))
+    if n == 0:
+        cx.ob("R-NULL-LAST", "grids_at/null0", False, "anchor-missing: no null-grid answer (Coor4D::origin) in grids_at",
+              cx.where(f.d["span"]))
+    cx.count("R-NULL-LAST", "null_answers", n)
